@@ -11,11 +11,12 @@ from .rules.graph import rule_keys, rule_order, rule_cover, rule_axiskey
 from .rules import misc as M
 from .rules.lazyrule import rule_lazy
 from .rules.pickle_nondet import rule_pickle, rule_nondet, rule_fillflow
+from .rules import pairs as PR
 from .rules.wiring import rule_passthrough_sort, rule_passthrough_engine, rule_counter, rule_globalidx, rule_sorted, rule_infresolve
 
 PROPERTIES = {
     "C01": {
-        "rules": [rule_dispatch, rule_stable, rule_passthrough_engine, M.rule_varshift],
+        "rules": [rule_dispatch, rule_stable, rule_passthrough_engine, M.rule_varshift, PR.rule_pairs_perm],
         "thorough": [selftest],
         "technique": "engine-dispatch model + sibling cross-check of kernel signatures (custom AST checker)",
         "level_text": "Static, all-paths: for every kernel name a blueprint can ask for and every engine, the implementation the dispatch "
@@ -76,7 +77,7 @@ PROPERTIES = {
         "explanation": "R-RAISE, R-DEFASSIGN, R-REGKEY, R-KWSIG, R-ASSERT",
     },
     "C02": {
-        "rules": [M.rule_plan, rule_algebra, rule_cover],
+        "rules": [M.rule_plan, rule_algebra, rule_cover, PR.rule_pairs_dummyaxis],
         "thorough": [selftest],
         "technique": "CFG must-pass-through (finalizer), resolved embeddings of combine/aggregate callables, access-path agreement",
         "level_text": "Static, all-paths: every plan funnels into the one finalizer on every path, only the two sibling combine algorithms "
@@ -95,7 +96,7 @@ PROPERTIES = {
         "explanation": "R-ALGEBRA (arg rows), R-ORDER, R-STABLE, R-KEYS",
     },
     "C07": {
-        "rules": [M.rule_sentinel_ravel],
+        "rules": [M.rule_sentinel_ravel, PR.rule_pairs_groupers],
         "thorough": [selftest],
         "technique": "CFG must-pass-through of a masked sentinel restore",
         "level_text": "Static, all-paths: after the per-grouper codes are combined arithmetically, every path to return restores the "
@@ -103,7 +104,7 @@ PROPERTIES = {
         "explanation": "R-SENTINEL on _ravel_factorized",
     },
     "C08": {
-        "rules": [M.rule_sentinel_offset, M.rule_copermute],
+        "rules": [M.rule_sentinel_offset, M.rule_copermute, PR.rule_pairs_collapse, PR.rule_pairs_outinds],
         "thorough": [selftest],
         "technique": "CFG must-pass-through of a masked sentinel restore; permutation agreement of labels and values",
         "level_text": "Static, all-paths: after per-slice offsetting of codes, every path to return restores the missing-label code under a "
@@ -120,7 +121,7 @@ PROPERTIES = {
         "explanation": "R-SCANTABLE, R-STABLE, R-PROMOTE",
     },
     "C11": {
-        "rules": [M.rule_dtypetable, M.rule_finalcast, M.rule_promote],
+        "rules": [M.rule_dtypetable, M.rule_finalcast, M.rule_promote, PR.rule_pairs_outinds],
         "thorough": [selftest],
         "technique": "dtype convention table; CFG must-pass-through of the final cast; access-path agreement of announced meta",
         "level_text": "Static, all-paths: blueprint dtype declarations follow the NumPy convention table, every path of the finalizer casts "
